@@ -37,7 +37,7 @@ AcceptClauses(cfg, rq, ans) ==
        "served-contexts-are-exactly-the-accepted-ones")
   \o F(\E i \in 1..Len(ans.dispatch) :
           LET d == ans.dispatch[i]
-              acc == {j \in 1..Len(ans.ctxs) : ans.ctxs[j].id = d.id /\ ans.ctxs[j].res = 0}
+              acc == {j \in 1..Len(ans.ctxs) : j <= Len(rq.ctxs) /\ ans.ctxs[j].id = d.id /\ ans.ctxs[j].res = 0}
           IN (d.served # (acc # {})) \/ (d.served /\ \E j \in acc : d.ts # ans.ctxs[j].ts \/ d.as # rq.ctxs[j].as),
        "dispatch-only-on-accepted-contexts-with-the-answered-syntax")
   \o F(ans.called # rq.called \/ ans.calling # rq.calling, "ae-titles-echoed")
